@@ -4,7 +4,7 @@
                                  python3 vp/check.py --setup                  (build every variant once)
    The harness binaries do the enumeration over the real fix8 code; this driver builds them from the current
    working tree, shards them over the cores, attributes sanitizer aborts / signals / hangs to single cases,
-   classifies violations against known_findings.jsonl and writes evidence/<ID>.json."""
+   classifies violations against known_findings.txt and writes evidence/<ID>.json."""
 import os, sys, json, time, subprocess, fnmatch, tempfile, shutil, re, signal, collections
 
 VERIF = os.path.dirname(os.path.dirname(os.path.abspath(__file__)))
@@ -18,11 +18,11 @@ SEED = int(os.environ.get('VERIF_SEED', '0') or 0)
 
 def load_findings():
     out = []
-    p = os.path.join(VERIF, 'known_findings.jsonl')
+    p = os.path.join(VERIF, 'known_findings.txt')
     if os.path.exists(p):
         for l in open(p):
             l = l.strip()
-            if l and not l.startswith('#'):
+            if l.startswith('{'):
                 out.append(json.loads(l))
     return out
 
